@@ -890,3 +890,184 @@ Inductive oans := OLps (l : list pstr) | OLLps (l : list (list pstr)) | OPairs (
             out.append(f.emit()); out.append("")
             self.fns[("self." if cls else "") + name] = f
         return "\n".join(out)
+
+
+# ------------------------------------------------------------------------------------------------------------------------------
+# Eleventh target: the k-local expansion of common/pauli_string_factory.py (gen_k_local, gen_k_local_generators): generators (yield /
+# yield from) that share a `Used` object.
+class FFn(SFn):
+    """a generator function of pauli_string_factory.py.  The `Used` helper (pinned source: a set of Pauli strings with append / is_used; no
+    __len__ / __bool__, so an instance is always truthy) is the list of the strings it holds; a parameter `used: Used | None = None` is that list
+    (None = a fresh, empty Used: `used = used or Used()` is the identity on it) and, since the callee mutates the caller's object, every such
+    function RETURNS the pair (list of the yielded strings in order, used afterwards).  `a + b` on Pauli strings is the tensor product
+    (Refine/PSRefine.gen_add); get_identity(k) = identity k (ValueError for k < 0); isinstance(g, str) is False for the Pauli strings the
+    collection hands over (get_pauli_string builds PauliStringCollection(...).get() first: pinned); max(l, key=len) raises ValueError on an
+    empty list."""
+    def __init__(self, tr, node, coq):
+        self.used_param = any(a.arg == "used" for a in node.args.args)
+        import copy
+        node = copy.deepcopy(node)
+        if self.used_param:
+            i = [a.arg for a in node.args.args].index("used")
+            di = i - (len(node.args.args) - len(node.args.defaults))
+            if di < 0 or not (isinstance(node.args.defaults[di], ast.Constant) and node.args.defaults[di].value is None) or ast.unparse(node.args.args[i].annotation) != "Used | None":
+                bad(node, "parameter used must be `used: Used | None = None`")
+            del node.args.defaults[di]
+        if node.args.defaults: bad(node, "defaults")
+        node.returns = None
+        SFn.__init__(self, tr, node, coq, False)
+        self.ret = T_tup([LPS, ("set", PS)]) if self.used_param else LPS
+
+    def ann(self, a, node):
+        txt = ast.unparse(a) if a is not None else None
+        if txt == "Used | None": return ("set", PS)
+        if txt == "'Union[list[str], list[PauliString], PauliStringCollection]'": return LPS
+        return SFn.ann(self, a, node)
+
+    def expr(self, e, env, nar=frozenset()):
+        if isinstance(e, ast.BinOp) and isinstance(e.op, ast.Add):
+            a, ta, ga = self.expr(e.left, env, nar); b, tb, gb = self.expr(e.right, env, nar)
+            if ta == PS and tb == PS: return "(%s ++ %s)" % (a, b), PS, ga + gb
+        if isinstance(e, ast.Call):
+            src = ast.unparse(e.func)
+            if src == "used.is_used" and len(e.args) == 1 and not e.keywords:
+                c, t, g = self.expr(e.args[0], env, nar)
+                if t != PS: bad(e, "is_used of %r" % (t,))
+                return "(mem_b pstr_eqb %s %s)" % (c, self.rd("used", env)), B, g
+            if src == "isinstance" and len(e.args) == 2 and ast.unparse(e.args[1]) == "str":
+                c, t, g = self.expr(e.args[0], env, nar)
+                if t != PS: bad(e, "isinstance(_, str) of %r" % (t,))
+                return "false", B, g
+            if src == "max" and len(e.args) == 1 and [k_.arg for k_ in e.keywords] == ["key"] and ast.unparse(e.keywords[0].value) == "len":
+                c, t, g = self.expr(e.args[0], env, nar)
+                if t != LPS: bad(e, "max of %r" % (t,))
+                return "(max_by_len %s)" % c, PS, g + [("(negb (is_nil %s))" % c, VERR)]
+        return SFn.expr(self, e, env, nar)
+
+    def rd(self, name, env):
+        al = env.get(name)
+        return "v_" + (al if al is not None else name)
+
+    def assigned_in(self, stmts):
+        out = SFn.assigned_in(stmts)
+        for st_ in stmts:
+            for n in ast.walk(st_):
+                if isinstance(n, (ast.Yield, ast.YieldFrom)): out.add("out_")
+                if isinstance(n, ast.YieldFrom): out.add("used")
+        return out
+
+    def block(self, stmts, env, nar, k):
+        if stmts:
+            s, rest = stmts[0], stmts[1:]
+            R = lambda env2: self.block(rest, env2, nar, k)
+            if isinstance(s, ast.Assign) and ast.unparse(s) == "used = used or Used()" and self.used_param:
+                return R(env)
+            if isinstance(s, ast.If) and isinstance(s.test, ast.Call) and ast.unparse(s.test.func) == "isinstance" and not s.orelse:
+                c, t, g = self.expr(s.test, env, nar)
+                if c == "false" and not g:       # a branch that is never taken for the strings handed over: not translated
+                    return R(env)
+            if isinstance(s, ast.Raise) and isinstance(s.exc, ast.Call) and ast.unparse(s.exc.func) == "ValueError":
+                return VERR, env
+            if isinstance(s, ast.Expr) and isinstance(s.value, ast.Yield) and s.value.value is not None:
+                c, t, g = self.expr(s.value.value, env, nar)
+                if t != PS: bad(s, "yield of %r" % (t,))
+                al, env2 = self.assign_alias("out_", LPS, s, env)
+                body, e3 = R(env2)
+                return self.guard(g, "(let v_%s := (%s ++ [%s]) in %s)" % (al, self.rd("out_", env), c, body)), e3
+            if isinstance(s, ast.Expr) and isinstance(s.value, ast.Call) and ast.unparse(s.value.func) == "used.append" and len(s.value.args) == 1 and self.used_param:
+                c, t, g = self.expr(s.value.args[0], env, nar)
+                if t != PS: bad(s, "used.append of %r" % (t,))
+                al, env2 = self.assign_alias("used", ("set", PS), s, env)
+                body, e3 = R(env2)
+                return self.guard(g, "(let v_%s := (%s :: %s) in %s)" % (al, c, self.rd("used", env), body)), e3
+            if isinstance(s, ast.Expr) and isinstance(s.value, ast.YieldFrom):
+                v = s.value.value
+                fn = self.tr.fns.get(ast.unparse(v.func)) if isinstance(v, ast.Call) else None
+                if fn is None or not getattr(fn, "used_param", False): bad(s, "yield from something that is not a translated generator with a used parameter")
+                names = list(fn.params)
+                given = dict(zip(names, v.args))
+                for kw in v.keywords:
+                    if kw.arg not in names or kw.arg in given: bad(s, "keyword argument %s" % kw.arg)
+                    given[kw.arg] = kw.value
+                cs, gs = [], []
+                for pn in names:
+                    if pn not in given: bad(s, "missing argument %s" % pn)
+                    if pn == "used":
+                        if not (isinstance(given[pn], ast.Name) and given[pn].id == "used"): bad(s, "the Used object handed on must be `used`")
+                        cs.append(self.rd("used", env)); continue
+                    c, t, g = self.expr(given[pn], env, nar)
+                    cs.append(self.coerce(c, t, fn.params[pn], s)); gs += g
+                al_o, env2 = self.assign_alias("out_", LPS, s, env)
+                al_u, env2 = self.assign_alias("used", ("set", PS), s, env2)
+                body, e3 = R(env2)
+                return self.guard(gs, "(bindr (%s %s) (fun r_ => let v_%s := (%s ++ fst r_) in let v_%s := snd r_ in %s))" % (fn.coq, " ".join(cs), al_o, self.rd("out_", env), al_u, body)), e3
+        return SFn.block(self, stmts, env, nar, k)
+
+    def leaves(self, stmts):
+        return False      # a generator falls off its end: that is its normal return
+
+    def emit(self):
+        body = [s for s in self.node.body if not (isinstance(s, ast.Expr) and isinstance(s.value, ast.Constant))]
+        fin = "Ret %s" % ("(v_out_, v_used)" if self.used_param else "v_out_")
+        env0 = {"out_": "out_"}
+        if self.used_param: env0["used"] = "used"
+        def run():
+            self.aliases = {"out_": ["out_"]}
+            self.vars, self.imm = {}, {}
+            if "out_" in self.stateful: self.vars["out_"] = LPS
+            else: self.imm["out_"] = LPS
+            if self.used_param:
+                self.aliases["used"] = ["used"]
+                if "used" in self.stateful: self.vars["used"] = ("set", PS)
+                else: self.imm["used"] = ("set", PS)
+            return self.block(body, dict(env0), frozenset(), None)
+        self.stateful = set(); run()
+        self.stateful = set(self.mark)
+        # the final return reads out_ and used wherever the body ends: they are state whenever they are assigned inside a loop or a branch
+        run(); term, _ = run()
+        ps = " ".join("(v_%s : %s)" % (n, ctype(t)) for n, t in self.params.items())
+        inits = "let v_out_ : (list pstr) := [] in " + "".join("let v_%s : %s := %s in " % (v, ctype(t), dflt(t)) for v, t in self.vars.items() if v not in ("out_", "used"))
+        head = "(* %s, lines %d-%d: a generator; returns %s *)\n" % (self.name, self.node.lineno, self.node.end_lineno, "(the strings yielded, the Used set afterwards)" if self.used_param else "the strings yielded")
+        return head + "Definition %s %s : fres %s :=\n  %s@finish %s _ (seqo (%s) (fun %s => %s))." % (self.coq, ps, ctype(self.ret), inits, self.stype2(), term, self.sp(), fin)
+
+
+class FactoryTranslator:
+    WANT = ["gen_k_local", "gen_k_local_generators"]
+    def __init__(self, repo):
+        path = os.path.join(repo, "src", "paulie", "common", "pauli_string_factory.py")
+        self.tree = ast.parse(open(path, newline=None, encoding="utf-8-sig").read())
+        self.fns = {}
+        self.defs = {n.name: n for n in self.tree.body if isinstance(n, ast.FunctionDef)}
+        def body_of(n):
+            return [ast.unparse(x) for x in n.body if not (isinstance(x, ast.Expr) and isinstance(x.value, ast.Constant))]
+        used = [c for c in self.tree.body if isinstance(c, ast.ClassDef) and c.name == "Used"]
+        if len(used) != 1: raise Unsupported("class Used not found")
+        meths = {f.name: body_of(f) for f in used[0].body if isinstance(f, ast.FunctionDef)}
+        want = {"__init__": ["self.clear()"], "clear": ["self.used = set()"], "append": ["self.used.add(p)"], "is_used": ["return p in self.used"]}
+        if meths != want: raise Unsupported("pinned source of class Used changed: %r" % (meths,))
+        if body_of(self.defs.get("get_identity", ast.parse("def f(): pass").body[0])) != ["return PauliString(n=n)"]:
+            raise Unsupported("factory.get_identity is no longer `return PauliString(n=n)`")
+        gps = self.defs.get("get_pauli_string")
+        tail = ["generators = PauliStringCollection([PauliString(pauli_str=p) if isinstance(p, str) else PauliString(pauli_str=str(p)) for p in o])",
+                "if n is not None:\n    return PauliStringCollection(list(gen_k_local_generators(n, generators.get())))", "return generators"]
+        if gps is None or body_of(gps)[-3:] != tail: raise Unsupported("the collection branch of get_pauli_string changed")
+
+    HEADER = """(* GENERATED by tools/py2coq.py (py2coq_search.py, FactoryTranslator) from src/paulie/common/pauli_string_factory.py — do not edit *)
+From PauLieRefine Require Import PySem.
+From PauLie Require Import Pauli.
+Open Scope Z_scope.
+
+Definition is_nil {A} (l : list A) : bool := match l with [] => true | _ => false end.
+Definition mem_b {A} (eqb : A -> A -> bool) (x : A) (l : list A) : bool := existsb (eqb x) l.
+(* max(l, key=len): the first string of maximal length *)
+Definition max_by_len (l : list pstr) : pstr := match l with [] => [] | h :: t => fold_left (fun m g => if Nat.ltb (length m) (length g) then g else m) t h end.
+"""
+    def run(self):
+        out = [self.HEADER]
+        for name in self.WANT:
+            node = self.defs.get(name)
+            if node is None: raise Unsupported("%s not found in the source" % name)
+            f = FFn(self, node, "py_F_" + name)
+            out.append(f.emit()); out.append("")
+            self.fns[name] = f
+        return "\n".join(out)
